@@ -5,12 +5,12 @@ from lib import common as C, scen, clientrun
 THEOREMS = []
 
 SITES = ["shipped_root", "hop_old_keys", "hop_new_keys", "timestamp", "snapshot", "targets", "delegated_1",
-         "delegated_2", "hop_same_key_list", "delegated_second_parent"]
+         "delegated_2", "hop_same_key_list", "delegated_second_parent", "second_hop_old_keys"]
 KINDS = ["valid", "valid_again", "corrupted", "other_content", "other_role_key", "unknown_key",
          "authorised_but_not_in_table", "claims_other_keyid"]
 REJECT = {"shipped_root": [2, 0], "hop_old_keys": [6, 0], "hop_new_keys": [6, 0], "hop_same_key_list": [6, 0], "timestamp": [6, 3],
           "snapshot": [6, 1], "targets": [6, 2], "delegated_1": [6, 2], "delegated_2": [6, 2],
-          "delegated_second_parent": [6, 2]}
+          "delegated_second_parent": [6, 2], "second_hop_old_keys": [6, 0]}
 
 
 def make_sigs(rng, kinds, auth, missing, other_role_key, unknown_key):
@@ -116,6 +116,19 @@ def build(rng, site, auth, missing, thr, kinds, cs):
         r2roles["root"] = (auth, 1)
         r2 = s.root(version=2, roles=r2roles, cs=cs, keys=root_keys(r2roles), sigs=sigs)
         roots = [(2, r2)]
+    elif site == "second_hop_old_keys":
+        # shipped root 1 (root key 0) -> root 2 (root role (auth, thr), correctly signed) -> root 3 (root key 7): root 3
+        # carries the generated list and must meet the threshold of root 2 - the root trusted at that moment, not
+        # the shipped one, whose key 0 also signs root 3 and authorises nothing any more
+        r = s.root(roles=roles, cs=cs, keys=root_keys(roles))
+        r2roles = dict(base)
+        r2roles["root"] = (auth, thr)
+        present = [k for k in auth if k not in missing]
+        r2 = s.root(version=2, roles=r2roles, cs=cs, keys=root_keys(r2roles), sigs=scen.valid([0] + present[:thr]))
+        r3roles = dict(base)
+        r3roles["root"] = ([7], 1)
+        r3 = s.root(version=3, roles=r3roles, cs=cs, keys=root_keys(r3roles), sigs=sigs + [[7, 7, 1], [0, 0, 1]])
+        roots = [(2, r2), (3, r3)]
     elif site == "hop_new_keys":
         r = s.root(roles=roles, cs=cs, keys=root_keys(roles))
         r2roles = dict(base)
@@ -142,7 +155,7 @@ def build(rng, site, auth, missing, thr, kinds, cs):
     s.cycle(r, files)
     # hop_old: shipped root itself must be valid, which needs thr present keys
     precondition = True
-    if site in ("hop_old_keys", "hop_same_key_list") and len([k for k in auth if k not in missing]) < thr:
+    if site in ("hop_old_keys", "hop_same_key_list", "second_hop_old_keys") and len([k for k in auth if k not in missing]) < thr:
         precondition = False
     return s, sigs, len(good) >= thr, precondition
 
@@ -172,7 +185,7 @@ def gen(chk):
     for _ in range(n):
         site = rng.choice(SITES)
         nk = rng.randint(1, 4)
-        auth = rng.sample(keypool if rng.random() < 0.35 else [4, 5, 6, 7 if site not in ("hop_old_keys", "hop_new_keys", "delegated_2", "delegated_second_parent") else 6], nk) if nk <= 4 else None
+        auth = rng.sample(keypool if rng.random() < 0.35 else [4, 5, 6, 7 if site not in ("hop_old_keys", "hop_new_keys", "delegated_2", "delegated_second_parent", "second_hop_old_keys") else 6], nk) if nk <= 4 else None
         auth = list(dict.fromkeys(auth))
         missing = set(rng.sample(auth, 1)) if (len(auth) > 1 and rng.random() < 0.3) else set()
         thr = rng.randint(1, 4)
